@@ -53,3 +53,10 @@ Print Assumptions C13_any_contract_conforming_reader.
 Example C13_nonvacuous : wf_member {| m_name := s "debian-binary"; m_slash := true; m_ts := s "1"; m_uid := []; m_gid := s "0";
                                       m_mode := s "100644"; m_size := s "3"; m_data := s "2.0"; m_pad := "000"%char |}.
 Proof. constructor; cbn; repeat split; try lia; try reflexivity; repeat constructor. Qed.
+(* a recorded name may START with blanks (and end in a tab): only the column's trailing space padding and one '/' are
+   removed (repair 215f837 of the r12 finding: TrimSpace made the members " x" and "x" of one archive both "x") *)
+Example C13_leading_blank_name : wf_member {| m_name := s " x"; m_slash := true; m_ts := s "1"; m_uid := []; m_gid := s "0";
+                                      m_mode := s "100644"; m_size := s "3"; m_data := s "abc"; m_pad := "010"%char |}
+  /\ wf_member {| m_name := [sp; sp; "y"%char; "009"%char]; m_slash := false; m_ts := []; m_uid := []; m_gid := [];
+                  m_mode := []; m_size := s "0"; m_data := []; m_pad := "010"%char |}.
+Proof. split; constructor; cbn; repeat split; try lia; try reflexivity; repeat constructor. Qed.
